@@ -527,11 +527,27 @@ fn run_job(job: &J, cap: &Mutex<Capture>, progress: &mut dyn FnMut(&str)) -> J {
                         one => vec![import_set(one)],
                     };
                     let env = if fresh { Rc::new(Environment::new()) } else { it.env.clone() };
-                    it.eval_import(&ImportDeclaration(sets), env.clone())?;
+                    if step.get("via_ast").and_then(|b| b.as_bool()).unwrap_or(false) {
+                        // the same declaration as a statement handed to eval_ast together with the environment it is meant for
+                        let statement: Statement = ImportDeclaration(sets).no_locate().into();
+                        it.eval_ast(&statement, env.clone())?;
+                    } else {
+                        it.eval_import(&ImportDeclaration(sets), env.clone())?;
+                    }
                     Ok(env_dump(&env, true))
                 }))
             } else if let Some(l) = step.get("register") {
                 catch_unwind(AssertUnwindSafe(|| register_lib(it, l).map(|_| json!({"none": true}))))
+            } else if let Some(l) = step.get("append_loader") {
+                // the other way an embedder supplies libraries: a LibraryLoader appended to the interpreter's own
+                catch_unwind(AssertUnwindSafe(|| {
+                    let name = lib_name(&l["name"]);
+                    let src = l.get("src").and_then(|s| s.as_str()).unwrap_or("");
+                    let f = LibraryFactory::from_char_stream(&name, src.chars())?;
+                    let loader = ruschm::interpreter::LibraryLoader::default().with_lib_factory(f);
+                    it.append_lib_loader(loader);
+                    Ok(json!({"none": true}))
+                }))
             } else if step.get("env_names").is_some() {
                 let with_values = step.get("env_names").and_then(|b| b.as_bool()).unwrap_or(false);
                 catch_unwind(AssertUnwindSafe(|| Ok(env_dump(&it.env, with_values))))
